@@ -2,6 +2,7 @@ package main
 
 import (
 	"go/token"
+	"go/types"
 	"strings"
 
 	"golang.org/x/tools/go/ssa"
@@ -618,3 +619,209 @@ func runResultCacheKeyInjective(c *Ctx) {
 	}
 	c.Anchor("C19.R7", "lookups and updates of MemoryBroker.resultCache", n >= 2)
 }
+
+func init() {
+	r4doc("C26", "C26.R5", "K2: the dissolver's queue refuses a job only when it is closed")
+	r4doc("C40", "C40.R6", "K2: the dissolver's queue refuses a job only when it is closed")
+	round3Hooks["C26"] = append(round3Hooks["C26"], func(c *Ctx) { runQueueRefusesOnlyWhenClosed(c, "C26.R5") })
+	round3Hooks["C40"] = append(round3Hooks["C40"], func(c *Ctx) { runQueueRefusesOnlyWhenClosed(c, "C40.R6") })
+	r4doc("C25", "C25.R7", "state left behind: ending a keyed subscription drops every per-channel entry of the keyed state on every path")
+	round3Hooks["C25"] = append(round3Hooks["C25"], runCleanupKeyedDropsAll)
+	r4doc("C27", "C27.R7", "state left behind: a pooled control message has every field it ever carries overwritten or cleared")
+	round3Hooks["C27"] = append(round3Hooks["C27"], runPooledControlMessageReset)
+}
+
+// runQueueRefusesOnlyWhenClosed: deferred broker unsubscribes (and their retries) are handed to the
+// dissolver with the result of Add ignored — correct as long as Add can only fail on a closed queue. A
+// bound on the queue turns "ignored" into "silently lost": the channel stays subscribed in the broker for
+// ever. Every `return false` of queueImpl.Add is dominated by the closed test.
+func runQueueRefusesOnlyWhenClosed(c *Ctx, rule string) {
+	w := c.W
+	fn := w.Func("internal/dissolve", "(*queueImpl).Add")
+	if !c.Anchor(rule, "(*queueImpl).Add", fn) {
+		return
+	}
+	n := 0
+	EachInstr(fn, func(in ssa.Instruction) {
+		r, ok := in.(*ssa.Return)
+		if !ok {
+			return
+		}
+		vals := retVals(r)
+		if len(vals) != 1 {
+			return
+		}
+		k, isK := boolConst(vals[0])
+		if !isK || k {
+			return
+		}
+		n++
+		closed := Guarded(r, func(g Guard) bool {
+			return g.Pol && loadsField(g.Cond, "queueImpl", "closed")
+		})
+		c.Check(rule, r, "Add refuses a job only on a closed queue", closed,
+			"callers drop the result of Submit/Add (removeSubscription, the retry in runWorker): a refusal for any other reason loses a deferred broker unsubscribe for good")
+	})
+	c.Anchor(rule, "refusing returns of queueImpl.Add", n >= 1)
+}
+
+// runCleanupKeyedDropsAll (C25.R7): cleanupKeyed ends the keyed (shared-poll) side of a subscription. The
+// per-channel entries of the keyed state (tracked keys, negotiated delta state, expiry hint) describe that
+// subscription; one that survives is picked up by the next subscription to the same channel (a later
+// subscribe without delta is then served deltas). For every map of the keyed state that cleanupKeyed
+// deletes from under its channel parameter, every path from entry to a return passes that delete — except
+// paths on which a pointer or map was found nil.
+func runCleanupKeyedDropsAll(c *Ctx) {
+	w := c.W
+	fn := w.Func("centrifuge", "(*Client).cleanupKeyed")
+	if !c.Anchor("C25.R7", "(*Client).cleanupKeyed", fn) {
+		return
+	}
+	type fld struct{ typ, name string }
+	fields := map[fld]bool{}
+	EachInstr(fn, func(in ssa.Instruction) {
+		call, ok := in.(*ssa.Call)
+		if !ok {
+			return
+		}
+		b, ok := call.Call.Value.(*ssa.Builtin)
+		if !ok || b.Name() != "delete" || len(call.Call.Args) != 2 {
+			return
+		}
+		if _, isParam := call.Call.Args[1].(*ssa.Parameter); !isParam {
+			return
+		}
+		if ld, ok := call.Call.Args[0].(*ssa.UnOp); ok {
+			if fa, ok := ld.X.(*ssa.FieldAddr); ok {
+				if t, f, ok := FieldOf(fa); ok {
+					fields[fld{t, f}] = true
+				}
+			}
+		}
+	})
+	if !c.Anchor("C25.R7", "per-channel deletes in cleanupKeyed", len(fields) >= 2) {
+		return
+	}
+	for f := range fields {
+		f := f
+		bad := PathQ{
+			Stop: func(in ssa.Instruction) bool { return isMapDeleteOf(in, f.typ, f.name) },
+			Goal: isReturn,
+			EdgeCond: func(cond ssa.Value, outcome bool) bool {
+				if b, ok := cond.(*ssa.BinOp); ok && (isNilConst(b.X) || isNilConst(b.Y)) {
+					isNil := (b.Op == token.EQL) == outcome
+					if isNil {
+						return false
+					}
+				}
+				return true
+			},
+		}.FromEntry(fn)
+		c.CheckAt("C25.R7", "(*centrifuge.Client).cleanupKeyed: every path drops the channel's entry of "+f.typ+"."+f.name, w.Pos(fn.Pos()), bad == nil,
+			"the entry outlives the subscription it describes and is picked up by the next subscription to the same channel (negotiated delta state served to a subscriber that did not ask for delta)"+instrAt(w, bad))
+	}
+}
+
+// runPooledControlMessageReset (C27.R7): a control message taken from a sync.Pool still holds what its
+// previous use put there. Every field the function ever stores into it must be stored on every path from
+// the Get to the first use of the message, or be cleared by the function that returns it to the pool;
+// otherwise an option of an earlier call (a recovery position) travels to the other nodes with an
+// unrelated later call. (No control message is pooled on the pinned tree: zero instances there.)
+func runPooledControlMessageReset(c *Ctx) {
+	w := c.W
+	n := 0
+	for _, f := range moduleFuncs(w) {
+		EachInstr(f, func(in ssa.Instruction) {
+			ta, ok := in.(*ssa.TypeAssert)
+			if !ok {
+				return
+			}
+			get, ok := ta.X.(*ssa.Call)
+			if !ok {
+				return
+			}
+			cal := get.Call.StaticCallee()
+			if cal == nil || cal.Pkg == nil || cal.Pkg.Pkg.Path() != "sync" || cal.Name() != "Get" {
+				return
+			}
+			if !strings.Contains(ta.AssertedType.String(), "controlpb.") {
+				return
+			}
+			var obj ssa.Value = ta
+			if ta.CommaOk {
+				return
+			}
+			// fields stored in f, and fields stored by helpers that receive obj (the put helper)
+			stored := map[int][]*ssa.Store{}
+			cleared := map[int]bool{}
+			var uses []ssa.Instruction
+			for _, r := range *obj.Referrers() {
+				switch x := r.(type) {
+				case *ssa.FieldAddr:
+					for _, rr := range *x.Referrers() {
+						if st, ok := rr.(*ssa.Store); ok && st.Addr == ssa.Value(x) {
+							stored[x.Field] = append(stored[x.Field], st)
+						}
+					}
+				case ssa.CallInstruction:
+					if cf := w.Callee(x); cf != nil && w.inModule(cf) && len(cf.Params) > 0 {
+						// helper: which fields of its parameter does it store?
+						for _, p := range cf.Params {
+							if p.Type().String() != obj.Type().String() {
+								continue
+							}
+							for _, pr := range *p.Referrers() {
+								if fa, ok := pr.(*ssa.FieldAddr); ok {
+									for _, rr := range *fa.Referrers() {
+										if st, ok := rr.(*ssa.Store); ok && st.Addr == ssa.Value(fa) {
+											cleared[fa.Field] = true
+										}
+									}
+								}
+							}
+						}
+					}
+					if _, isDefer := r.(*ssa.Defer); !isDefer {
+						uses = append(uses, r)
+					}
+				default:
+					if _, isFA := r.(*ssa.FieldAddr); !isFA {
+						uses = append(uses, r)
+					}
+				}
+			}
+			n++
+			for idx, sts := range stored {
+				if cleared[idx] {
+					continue
+				}
+				isStore := func(x ssa.Instruction) bool {
+					for _, st := range sts {
+						if x == ssa.Instruction(st) {
+							return true
+						}
+					}
+					return false
+				}
+				isUse := func(x ssa.Instruction) bool {
+					for _, u := range uses {
+						if x == u {
+							return true
+						}
+					}
+					return isReturn(x)
+				}
+				bad := PathQ{Stop: isStore, Goal: isUse}.From(in)
+				name := "field #" + string(rune('0'+idx%10))
+				if st, ok := deref(obj.Type()).Underlying().(*types.Struct); ok && idx < st.NumFields() {
+					name = st.Field(idx).Name()
+				}
+				c.Check("C27.R7", sts[0], "pooled control message: field "+name+" is overwritten on every path or cleared before pooling", bad == nil,
+					"the field keeps the value of an earlier call on the path that does not set it: that value is sent to the other nodes with an unrelated operation, so they act differently from the calling node"+instrAt(w, bad))
+			}
+		})
+	}
+	c.CheckAt("C27.R7", "pooled control messages examined", "node.go", true, "")
+	_ = n
+}
+
